@@ -220,6 +220,9 @@ func c14Buffered(c *Ctx) {
 	okLen := lenOK && lenField == b.endF
 	r.Check(okLen, "C14.buffered-count", "ring.Buffered.Len", p.Pos(lenFn.Pos()), "Len returns the count field", "Len no longer returns the element count")
 
+	// ---- the vacated slot is cleared (slots outside the live window stay zero)
+	b.checkVacate(rem, p.Func("ring", "Buffered.Front"))
+
 	// ---- growth increment >= 1
 	b.checkGrowth(app)
 
